@@ -47,7 +47,7 @@ Proof.
   unfold tail. cbn [r_live].
   destruct (negb (negb (f_twrite fl)) && negb (negb (f_swrite fl))).
   - destruct (p_newrev s); [intros []|auto].
-  - intros H. right. apply trusted_keys_in in H. destruct H as (t & a & Hin & Ht & Hk).
+  - intros H. right. apply published_sub in H. apply trusted_keys_in in H. destruct H as (t & a & Hin & Ht & Hk).
     exists t, a. split; [|auto]. destruct (negb (f_twrite fl)); [apply filter_In in Hin; apply Hin|exact Hin].
 Qed.
 
@@ -155,13 +155,96 @@ Definition after_refresh (now : Z) (fm : list (N * key)) (t : N) (a : ta) : ta :
        | _ => a
        end.
 
+(* ---- after prefetch no non-marker entry is of tombstoned material (tombstone precedence; the
+   configured REVOKE-flagged keys were all tombstoned before it, so the merge adds no tombstone) *)
+Definition clean (ksk : kmap) (tombs : tmap) : Prop :=
+  forall t a, In (t, a) ksk -> is_marker a = false -> mem (ta_mat a) tombs = false.
+
+Lemma cfgrev_all now cfg tombs k :
+  In k cfg -> is_ksk k = true -> is_rev k = true -> mem (k_mat k) (cfgrev now cfg tombs) = true.
+Proof.
+  revert tombs. induction cfg as [|x cfg IH]; intros tombs Hin Hk Hr; [destruct Hin|].
+  destruct Hin as [->|Hin].
+  - change (mem (k_mat k) (cfgrev now cfg (cfgrev_step now tombs k)) = true). apply cfgrev_mono.
+    unfold cfgrev_step. rewrite Hk, Hr. cbn. destruct (mem (k_mat k) tombs) eqn:E; cbn; [exact E|].
+    rewrite mem_set, N.eqb_refl. reflexivity.
+  - change (mem (k_mat k) (cfgrev now cfg (cfgrev_step now tombs x)) = true). apply IH; assumption.
+Qed.
+
+Lemma merge_step_clean now ksk tombs x :
+  (is_ksk x = true -> is_rev x = true -> mem (k_mat x) tombs = true) -> clean ksk tombs ->
+  snd (merge_step tag now (ksk, tombs) x) = tombs /\ clean (fst (merge_step tag now (ksk, tombs) x)) tombs.
+Proof.
+  intros HR HC. unfold merge_step.
+  destruct (is_ksk x) eqn:Ek; cbn [negb]; [|split; [reflexivity|exact HC]].
+  destruct (lookup (tag x) ksk); [split; [reflexivity|exact HC]|].
+  destruct (mem (k_mat x) tombs) eqn:Em; [split; [reflexivity|exact HC]|].
+  destruct (is_rev x) eqn:Er.
+  - pose proof (HR eq_refl eq_refl) as Hx. discriminate.
+  - cbn. split; [reflexivity|]. intros t a Hin Hm. apply in_set in Hin. destruct Hin as [[_ ->]|[Hin _]].
+    + exact Em.
+    + eapply HC; eassumption.
+Qed.
+
+Lemma merge_clean now cfg : forall ksk tombs,
+  (forall k, In k cfg -> is_ksk k = true -> is_rev k = true -> mem (k_mat k) tombs = true) -> clean ksk tombs ->
+  snd (merge tag now cfg ksk tombs) = tombs /\ clean (fst (merge tag now cfg ksk tombs)) tombs.
+Proof.
+  induction cfg as [|x cfg IH]; intros ksk tombs HR HC; [split; [reflexivity|exact HC]|].
+  destruct (merge_step_clean now ksk tombs x) as [E1 C1]; [intros; apply HR; [left; reflexivity|assumption..]|exact HC|].
+  change (merge tag now (x :: cfg) ksk tombs) with (fold_left (merge_step tag now) cfg (merge_step tag now (ksk, tombs) x)).
+  destruct (merge_step tag now (ksk, tombs) x) as [ksk' tombs'] eqn:E. cbn [fst snd] in E1, C1. subst tombs'.
+  apply IH; [intros k Hin; apply HR; right; exact Hin|exact C1].
+Qed.
+
+Lemma prefetch_clean live cfg d now fl ksk2 tombs2 :
+  prefetch tag live cfg d now fl = Some (ksk2, tombs2) -> clean ksk2 tombs2.
+Proof.
+  unfold prefetch. intros Hp. destruct (f_sread fl); [discriminate|]. destruct (f_tread fl); [|discriminate|discriminate].
+  set (ksk0 := match d_state d with Some s => s | None => seed_from_live tag now live end) in *.
+  set (tombs1 := cfgrev now cfg (migrate ksk0 _)) in *.
+  inversion Hp as [Hp']. clear Hp.
+  destruct (merge_clean now cfg (precedence ksk0 tombs1) tombs1) as [E C].
+  - intros k Hin Hk Hr. apply cfgrev_all; assumption.
+  - intros t a Hin Hm. unfold precedence in Hin. apply filter_In in Hin. destruct Hin as [_ Hf].
+    cbn in Hf. rewrite Hm in Hf. cbn in Hf. destruct (mem (ta_mat a) tombs1); [discriminate|reflexivity].
+  - rewrite Hp' in E, C. cbn [fst snd] in E, C. subst tombs2. exact C.
+Qed.
+
+(* ---- the per-tag loop tombstones only materials whose REVOKE-flagged form is in the response *)
+Lemma process_one_tomb_new now ro fm staged s t x :
+  mem x (p_tombs (process_one tag now ro fm staged s t)) = true ->
+  mem x (p_tombs s) = true \/ exists t' k, lookup t' fm = Some k /\ is_rev k = true /\ k_mat k = x.
+Proof.
+  unfold process_one.
+  destruct (lookup t fm) as [k|] eqn:Ef; [|auto].
+  destruct (mem (k_mat k) (p_tombs s)); [auto|].
+  destruct (ident_existing (p_ksk s) t k); [auto|].
+  destruct (is_rev k) eqn:Er.
+  - destruct (lookup (tag (unrev k)) (p_ksk s)) as [old|]; [|auto].
+    destruct (is_trusted_st old && same_except_revoke (ta_key old) k && staged_ok staged t); [|auto].
+    cbn. rewrite mem_set. destruct (k_mat k =? x) eqn:E; [|cbn; auto].
+    intros _. right. exists t, k. apply N.eqb_eq in E. auto.
+  - destruct ro; [auto|]. destruct (lookup t (p_ksk s)); auto.
+Qed.
+
+Lemma process_tomb_new now ro fm staged tags s x :
+  mem x (p_tombs (process tag now ro fm staged tags s)) = true ->
+  mem x (p_tombs s) = true \/ exists t' k, lookup t' fm = Some k /\ is_rev k = true /\ k_mat k = x.
+Proof.
+  unfold process.
+  apply (fold_left_inv (fun s' => mem x (p_tombs s') = true ->
+           mem x (p_tombs s) = true \/ exists t' k, lookup t' fm = Some k /\ is_rev k = true /\ k_mat k = x)); [auto|].
+  intros s' t' IH H. apply process_one_tomb_new in H. destruct H as [H|H]; [apply IH; exact H|right; exact H].
+Qed.
+
 Lemma missing_90d_lemma live cfg d now keys sigs fl ksk2 tombs2 t a :
   prefetch tag live cfg d now fl = Some (ksk2, tombs2) ->
   authenticate tag (trusted_keys ksk2) keys sigs = AuthFull ->
   let fm := fetched_map tag keys in
   lookup t ksk2 = Some a -> is_trusted_st a = true ->
-  (* its own revocation is not in the response *)
-  (forall t' k, lookup t' fm = Some k -> is_rev k = true -> same_except_revoke (ta_key a) k = false) ->
+  (* no REVOKE-flagged form of its key material is in the response *)
+  (forall t' k, lookup t' fm = Some k -> is_rev k = true -> k_mat k <> ta_mat a) ->
   (* at least one of the two writes works *)
   (f_twrite fl = false \/ f_swrite fl = false) ->
   (* if it is missing, then for at most 90 days *)
@@ -170,11 +253,19 @@ Lemma missing_90d_lemma live cfg d now keys sigs fl ksk2 tombs2 t a :
   In (ta_key a) (r_live r) /\
   forall s5, In (WState s5) (r_writes r) -> lookup t s5 = Some (after_refresh now fm t a).
 Proof.
-  intros Hp Ha fm Hl Htr Hno Hw Hage. unfold autota. rewrite Hp, Ha. fold fm.
+  intros Hp Ha fm Hl Htr Hno' Hw Hage. unfold autota. rewrite Hp, Ha. fold fm.
+  assert (Hno : forall t' k, lookup t' fm = Some k -> is_rev k = true -> same_except_revoke (ta_key a) k = false).
+  { intros t' k Hf Hr. destruct (same_except_revoke (ta_key a) k) eqn:E; [|reflexivity].
+    apply same_except_revoke_mat in E. exfalso. apply (Hno' t' k Hf Hr). unfold ta_mat. congruence. }
   set (staged := stage tag ksk2 tombs2 sigs fm (sort_tags (map fst fm))).
   set (s3 := process tag now false fm staged (sort_tags (map fst fm)) (mk_pst ksk2 tombs2 false [])).
   assert (H3 : lookup t (p_ksk s3) = Some a).
   { unfold s3, staged, fm. apply process_untouched; [exact Hl|exact Hno]. }
+  assert (Hnt : mem (ta_mat a) (p_tombs s3) = false).
+  { destruct (mem (ta_mat a) (p_tombs s3)) eqn:E; [|reflexivity]. exfalso.
+    apply process_tomb_new in E. destruct E as [E|(t' & k & Hf & Hr & Hk)]; [|exact (Hno' t' k Hf Hr Hk)].
+    cbn in E. rewrite (prefetch_clean _ _ _ _ _ _ _ Hp t a (lookup_in _ _ _ Hl)) in E; [discriminate|].
+    destruct (is_marker a) eqn:Em; [|reflexivity]. rewrite (marker_not_trusted _ Em) in Htr. discriminate. }
   assert (Hone : keyrem_one now fm (t, a) = [(t, after_refresh now fm t a)]).
   { unfold keyrem_one, after_refresh. cbn [fst snd]. destruct a as [k st0 fs]. cbn [ta_st ta_key ta_fs] in *.
     destruct (fm_has fm t _) eqn:Ef; destruct st0; cbn in Htr; try discriminate; cbn [ta_st ta_key ta_fs].
@@ -189,13 +280,14 @@ Proof.
   { unfold after_refresh. destruct (fm_has fm t a); [reflexivity|]. destruct (ta_st a); reflexivity. }
   assert (Hnm : is_marker (after_refresh now fm t a) = false).
   { destruct (is_marker (after_refresh now fm t a)) eqn:E; [|reflexivity]. rewrite (marker_not_trusted _ E) in Htr'. discriminate. }
-  unfold tail. cbn [r_live r_writes p_ksk].
+  unfold tail. cbn [r_live r_writes p_ksk p_tombs].
   assert (H5 : lookup t (if negb (f_twrite fl) then filter (fun e => negb (is_marker (snd e))) (keyrem now fm (p_ksk s3)) else keyrem now fm (p_ksk s3))
                = Some (after_refresh now fm t a)).
   { destruct (negb (f_twrite fl)); [|exact H4]. apply lookup_filter_keep; [exact H4|]. cbn. rewrite Hnm. reflexivity. }
   split.
   - assert (Hb : negb (negb (f_twrite fl)) && negb (negb (f_swrite fl)) = false) by (destruct Hw as [-> | ->]; cbn; [reflexivity|apply andb_false_r]).
-    rewrite Hb. rewrite <- Hkey. eapply trusted_keys_intro; [apply lookup_in; exact H5|exact Htr'].
+    rewrite Hb. rewrite <- Hkey. unfold published. eapply trusted_keys_intro; [apply lookup_in; apply lookup_filter_keep; [exact H5|]|exact Htr'].
+    cbn. unfold ta_mat in *. rewrite Hkey, Hnt. reflexivity.
   - intros s5 Hin. apply in_app_or in Hin. destruct Hin as [Hin|Hin].
     + destruct (negb (f_twrite fl)); [destruct Hin as [Hin|[]]; discriminate|destruct Hin].
     + destruct (negb (f_swrite fl)); [|destruct Hin]. destruct Hin as [Hin|[]]. inversion Hin. exact H5.
